@@ -127,3 +127,14 @@ func VH_C11_RenameCarriesForks() {
 		vAssert("side_file_follows_new_name_iff_it_existed", st.has(dst[i]) == had[i])
 	}
 }
+
+// Names as listed (wire encoding) address the entry on disk (native encoding) in every position of a path: the
+// decoder is applied to path items and to the file name alike (e-acute: wire 0x8E, disk C3 A9).
+func VH_C11_ListedNamesAddressEntries() {
+	p, err := ReadPath("/r", []byte{0, 1, 0, 0, 4, 'c', 'a', 'f', 0x8e}, []byte{'x', 0x8e})
+	vAssert("readpath_ok", err == nil)
+	vAssert("path_item_and_name_decoded", p == "/r/caf\xc3\xa9/x\xc3\xa9")
+	p2, err2 := ReadPath("/r", []byte{0, 2, 0, 0, 1, 'a', 0, 0, 2, 'b', 0x8e}, nil)
+	vAssert("readpath2_ok", err2 == nil)
+	vAssert("nested_path_item_decoded", p2 == "/r/a/b\xc3\xa9")
+}
